@@ -4,8 +4,6 @@ Oracle (all in TLA+): spec/front/AbraMatch.tla Exhaustive / Unmatched by brute f
 the compiler must report `doesn't cover every case` exactly for the non-exhaustive arm lists, every missing
 pattern it lists must cover an unmatched value (decided by TLC in spec/props/C12W.tla), and every accepted
 match must run one of its arms for every value of the type."""
-import os
-
 import vlib
 from props import cmatch
 
@@ -83,7 +81,7 @@ def run(prop, tier, seed):
         n_calls += 1
         ok = status == "done" and line is not None and any(line == p or line.startswith(p + ":") for p in m_prefixes(m))
         if not ok:
-            case = {"id": "%s_m%s" % (b["id"], m["g"]),
+            case = {"id": "%s_m%s_v%d" % (b["id"], m["g"], m["calls"].index(c)),
                     "files": {"main.abra": "\n".join(b["header"] + m["fn"] + [c["stmt"]]) + "\n"},
                     "expect": {"status": "done"}, "type": m["tyname"], "arms": m["armstxt"]}
             lim.finding(m["key12run"], case,
